@@ -26,6 +26,7 @@ variables rs = "INITIALIZED", rep = "INITIALIZED", runflag = FALSE, fin = FALSE,
           lateStop = FALSE,     \* history: the caller wrote STOPPING when the run loop could no longer see it
           staleStart = FALSE,   \* history: a start was admitted before the run thread cleared the previous wake-up
           wrote = FALSE,        \* the command in progress has written shared state
+          afterStop = -1,       \* events executed since an accepted stop() wrote STOPPING (-1: no stop in force)
           ctimedout = FALSE, wtimedout = FALSE,   \* a second has passed since the caller's / the run thread's current spin wait began (time is global)
           last = [t |-> "-", k |-> "-", v |-> "-", x |-> "-"];   \* the access just performed (binding)
 
@@ -70,6 +71,7 @@ R_body:
   if next <= NEvents then
     AccN("w", "exec", "event", next);
     next := next + 1;
+    afterStop := IF afterStop >= 0 THEN afterStop + 1 ELSE afterStop;
     if (next - 1) \in Faulty then goto R_fault;
     elsif (next - 1) \in Stoppers then goto H1a;
     else goto R1a; end if;
@@ -101,7 +103,7 @@ R_fault:  \* WARN_AND_PAUSE: self._run_state = STOPPING
 R_end2:
   rs := "STOPPING"; Acc("w", "W", "rs", "STOPPING");
 W7:
-  rs := "STOPPED"; Acc("w", "W", "rs", "STOPPED");
+  rs := "STOPPED"; afterStop := -1; Acc("w", "W", "rs", "STOPPED");
 W8:
   Acc("w", "R", "rep", rep);
   if rep # "ENDING" then
@@ -183,7 +185,7 @@ P1b:
   if rs # "STARTED" then ok := FALSE; goto C_ret; end if;
 P3:     \* the write; then "while not worker.is_waiting() ..." looks at the waiters without an announcement
   lateStop := lateStop \/ ~InRunLoop(pc["w"]) \/ pc["w"] = "R_end2";
-  rs := "STOPPING"; wrote := TRUE; ctimedout := FALSE; Acc("c", "W", "rs", "STOPPING");
+  rs := "STOPPING"; wrote := TRUE; ctimedout := FALSE; afterStop := 0; Acc("c", "W", "rs", "STOPPING");
   if WBlocked then if "settle_late_stopping" \in Fixes then goto P5a; else goto C_ret; end if; else goto P4f; end if;
 P4f:    \* ... and not worker.is_finalized()
   AccB("c", "R", "fin", fin);
@@ -216,7 +218,7 @@ end process;
 end algorithm; *)
 \* BEGIN TRANSLATION
 VARIABLES pc, rs, rep, runflag, fin, flag, next, res, startsOK, segments, 
-          lateStop, staleStart, wrote, ctimedout, wtimedout, last
+          lateStop, staleStart, wrote, afterStop, ctimedout, wtimedout, last
 
 (* define statement *)
 InRunLoop(p) == p \in {"R0", "R1a", "R1b", "R_body", "R_fault", "R_end1", "R_end2", "H1a", "H1b", "H3", "H4f", "H4s"}
@@ -227,7 +229,8 @@ WDone == pc["w"] = "Done"
 VARIABLES i, ok
 
 vars == << pc, rs, rep, runflag, fin, flag, next, res, startsOK, segments, 
-           lateStop, staleStart, wrote, ctimedout, wtimedout, last, i, ok >>
+           lateStop, staleStart, wrote, afterStop, ctimedout, wtimedout, last, 
+           i, ok >>
 
 ProcSet == {"w"} \cup {"c"}
 
@@ -244,6 +247,7 @@ Init == (* Global variables *)
         /\ lateStop = FALSE
         /\ staleStart = FALSE
         /\ wrote = FALSE
+        /\ afterStop = -1
         /\ ctimedout = FALSE
         /\ wtimedout = FALSE
         /\ last = [t |-> "-", k |-> "-", v |-> "-", x |-> "-"]
@@ -260,16 +264,16 @@ W_woke == /\ pc["w"] = "W_woke"
                 THEN /\ pc' = [pc EXCEPT !["w"] = "W_clear0"]
                 ELSE /\ pc' = [pc EXCEPT !["w"] = "W2"]
           /\ UNCHANGED << rs, rep, runflag, fin, flag, next, res, startsOK, 
-                          segments, lateStop, staleStart, wrote, ctimedout, 
-                          wtimedout, i, ok >>
+                          segments, lateStop, staleStart, wrote, afterStop, 
+                          ctimedout, wtimedout, i, ok >>
 
 W_clear0 == /\ pc["w"] = "W_clear0"
             /\ flag' = FALSE
             /\ last' = [t |-> "w", k |-> "ev", v |-> "clear", x |-> "-"]
             /\ pc' = [pc EXCEPT !["w"] = "W2"]
             /\ UNCHANGED << rs, rep, runflag, fin, next, res, startsOK, 
-                            segments, lateStop, staleStart, wrote, ctimedout, 
-                            wtimedout, i, ok >>
+                            segments, lateStop, staleStart, wrote, afterStop, 
+                            ctimedout, wtimedout, i, ok >>
 
 W2 == /\ pc["w"] = "W2"
       /\ last' = [t |-> "w", k |-> "R", v |-> "fin", x |-> IF fin THEN "True" ELSE "False"]
@@ -279,8 +283,8 @@ W2 == /\ pc["w"] = "W2"
                        ELSE /\ pc' = [pc EXCEPT !["w"] = "W_clear"]
             ELSE /\ pc' = [pc EXCEPT !["w"] = "W3"]
       /\ UNCHANGED << rs, rep, runflag, fin, flag, next, res, startsOK, 
-                      segments, lateStop, staleStart, wrote, ctimedout, 
-                      wtimedout, i, ok >>
+                      segments, lateStop, staleStart, wrote, afterStop, 
+                      ctimedout, wtimedout, i, ok >>
 
 W3 == /\ pc["w"] = "W3"
       /\ last' = [t |-> "w", k |-> "R", v |-> "rep", x |-> rep]
@@ -288,15 +292,16 @@ W3 == /\ pc["w"] = "W3"
             THEN /\ pc' = [pc EXCEPT !["w"] = "W8"]
             ELSE /\ pc' = [pc EXCEPT !["w"] = "W5"]
       /\ UNCHANGED << rs, rep, runflag, fin, flag, next, res, startsOK, 
-                      segments, lateStop, staleStart, wrote, ctimedout, 
-                      wtimedout, i, ok >>
+                      segments, lateStop, staleStart, wrote, afterStop, 
+                      ctimedout, wtimedout, i, ok >>
 
 W5 == /\ pc["w"] = "W5"
       /\ rs' = "STARTED"
       /\ last' = [t |-> "w", k |-> "W", v |-> "rs", x |-> "STARTED"]
       /\ pc' = [pc EXCEPT !["w"] = "R0"]
       /\ UNCHANGED << rep, runflag, fin, flag, next, res, startsOK, segments, 
-                      lateStop, staleStart, wrote, ctimedout, wtimedout, i, ok >>
+                      lateStop, staleStart, wrote, afterStop, ctimedout, 
+                      wtimedout, i, ok >>
 
 R0 == /\ pc["w"] = "R0"
       /\ runflag' = TRUE
@@ -304,7 +309,8 @@ R0 == /\ pc["w"] = "R0"
       /\ last' = [t |-> "w", k |-> "W", v |-> "runflag", x |-> IF TRUE THEN "True" ELSE "False"]
       /\ pc' = [pc EXCEPT !["w"] = "R1a"]
       /\ UNCHANGED << rs, rep, fin, flag, next, res, startsOK, lateStop, 
-                      staleStart, wrote, ctimedout, wtimedout, i, ok >>
+                      staleStart, wrote, afterStop, ctimedout, wtimedout, i, 
+                      ok >>
 
 R1a == /\ pc["w"] = "R1a"
        /\ last' = [t |-> "w", k |-> "R", v |-> "rs", x |-> rs]
@@ -312,8 +318,8 @@ R1a == /\ pc["w"] = "R1a"
              THEN /\ pc' = [pc EXCEPT !["w"] = "R_body"]
              ELSE /\ pc' = [pc EXCEPT !["w"] = "R1b"]
        /\ UNCHANGED << rs, rep, runflag, fin, flag, next, res, startsOK, 
-                       segments, lateStop, staleStart, wrote, ctimedout, 
-                       wtimedout, i, ok >>
+                       segments, lateStop, staleStart, wrote, afterStop, 
+                       ctimedout, wtimedout, i, ok >>
 
 R1b == /\ pc["w"] = "R1b"
        /\ last' = [t |-> "w", k |-> "R", v |-> "rs", x |-> rs]
@@ -321,13 +327,14 @@ R1b == /\ pc["w"] = "R1b"
              THEN /\ pc' = [pc EXCEPT !["w"] = "W7"]
              ELSE /\ pc' = [pc EXCEPT !["w"] = "R_body"]
        /\ UNCHANGED << rs, rep, runflag, fin, flag, next, res, startsOK, 
-                       segments, lateStop, staleStart, wrote, ctimedout, 
-                       wtimedout, i, ok >>
+                       segments, lateStop, staleStart, wrote, afterStop, 
+                       ctimedout, wtimedout, i, ok >>
 
 R_body == /\ pc["w"] = "R_body"
           /\ IF next <= NEvents
                 THEN /\ last' = [t |-> "w", k |-> "exec", v |-> "event", x |-> ToString(next)]
                      /\ next' = next + 1
+                     /\ afterStop' = (IF afterStop >= 0 THEN afterStop + 1 ELSE afterStop)
                      /\ IF (next' - 1) \in Faulty
                            THEN /\ pc' = [pc EXCEPT !["w"] = "R_fault"]
                            ELSE /\ IF (next' - 1) \in Stoppers
@@ -337,7 +344,7 @@ R_body == /\ pc["w"] = "R_body"
                 ELSE /\ rep' = "ENDING"
                      /\ last' = [t |-> "w", k |-> "W", v |-> "rep", x |-> "ENDING"]
                      /\ pc' = [pc EXCEPT !["w"] = "R_end2"]
-                     /\ next' = next
+                     /\ UNCHANGED << next, afterStop >>
           /\ UNCHANGED << rs, runflag, fin, flag, res, startsOK, segments, 
                           lateStop, staleStart, wrote, ctimedout, wtimedout, i, 
                           ok >>
@@ -348,8 +355,8 @@ H1a == /\ pc["w"] = "H1a"
              THEN /\ pc' = [pc EXCEPT !["w"] = "H3"]
              ELSE /\ pc' = [pc EXCEPT !["w"] = "H1b"]
        /\ UNCHANGED << rs, rep, runflag, fin, flag, next, res, startsOK, 
-                       segments, lateStop, staleStart, wrote, ctimedout, 
-                       wtimedout, i, ok >>
+                       segments, lateStop, staleStart, wrote, afterStop, 
+                       ctimedout, wtimedout, i, ok >>
 
 H1b == /\ pc["w"] = "H1b"
        /\ last' = [t |-> "w", k |-> "R", v |-> "rs", x |-> rs]
@@ -357,8 +364,8 @@ H1b == /\ pc["w"] = "H1b"
              THEN /\ pc' = [pc EXCEPT !["w"] = "R_fault"]
              ELSE /\ pc' = [pc EXCEPT !["w"] = "H3"]
        /\ UNCHANGED << rs, rep, runflag, fin, flag, next, res, startsOK, 
-                       segments, lateStop, staleStart, wrote, ctimedout, 
-                       wtimedout, i, ok >>
+                       segments, lateStop, staleStart, wrote, afterStop, 
+                       ctimedout, wtimedout, i, ok >>
 
 H3 == /\ pc["w"] = "H3"
       /\ rs' = "STOPPING"
@@ -366,7 +373,7 @@ H3 == /\ pc["w"] = "H3"
       /\ last' = [t |-> "w", k |-> "W", v |-> "rs", x |-> "STOPPING"]
       /\ pc' = [pc EXCEPT !["w"] = "H4f"]
       /\ UNCHANGED << rep, runflag, fin, flag, next, res, startsOK, segments, 
-                      lateStop, staleStart, wrote, ctimedout, i, ok >>
+                      lateStop, staleStart, wrote, afterStop, ctimedout, i, ok >>
 
 H4f == /\ pc["w"] = "H4f"
        /\ last' = [t |-> "w", k |-> "R", v |-> "fin", x |-> IF fin THEN "True" ELSE "False"]
@@ -374,8 +381,8 @@ H4f == /\ pc["w"] = "H4f"
              THEN /\ pc' = [pc EXCEPT !["w"] = "R1a"]
              ELSE /\ pc' = [pc EXCEPT !["w"] = "H4s"]
        /\ UNCHANGED << rs, rep, runflag, fin, flag, next, res, startsOK, 
-                       segments, lateStop, staleStart, wrote, ctimedout, 
-                       wtimedout, i, ok >>
+                       segments, lateStop, staleStart, wrote, afterStop, 
+                       ctimedout, wtimedout, i, ok >>
 
 H4s == /\ pc["w"] = "H4s"
        /\ \/ /\ last' = [t |-> "w", k |-> "sleep", v |-> "-", x |-> "-"]
@@ -385,26 +392,27 @@ H4s == /\ pc["w"] = "H4s"
              /\ last' = [t |-> "w", k |-> "sleep", v |-> "timeout", x |-> "-"]
        /\ pc' = [pc EXCEPT !["w"] = "H4f"]
        /\ UNCHANGED << rs, rep, runflag, fin, flag, next, res, startsOK, 
-                       segments, lateStop, staleStart, wrote, i, ok >>
+                       segments, lateStop, staleStart, wrote, afterStop, i, ok >>
 
 R_fault == /\ pc["w"] = "R_fault"
            /\ rs' = "STOPPING"
            /\ last' = [t |-> "w", k |-> "W", v |-> "rs", x |-> "STOPPING"]
            /\ pc' = [pc EXCEPT !["w"] = "R1a"]
            /\ UNCHANGED << rep, runflag, fin, flag, next, res, startsOK, 
-                           segments, lateStop, staleStart, wrote, ctimedout, 
-                           wtimedout, i, ok >>
+                           segments, lateStop, staleStart, wrote, afterStop, 
+                           ctimedout, wtimedout, i, ok >>
 
 R_end2 == /\ pc["w"] = "R_end2"
           /\ rs' = "STOPPING"
           /\ last' = [t |-> "w", k |-> "W", v |-> "rs", x |-> "STOPPING"]
           /\ pc' = [pc EXCEPT !["w"] = "W7"]
           /\ UNCHANGED << rep, runflag, fin, flag, next, res, startsOK, 
-                          segments, lateStop, staleStart, wrote, ctimedout, 
-                          wtimedout, i, ok >>
+                          segments, lateStop, staleStart, wrote, afterStop, 
+                          ctimedout, wtimedout, i, ok >>
 
 W7 == /\ pc["w"] = "W7"
       /\ rs' = "STOPPED"
+      /\ afterStop' = -1
       /\ last' = [t |-> "w", k |-> "W", v |-> "rs", x |-> "STOPPED"]
       /\ pc' = [pc EXCEPT !["w"] = "W8"]
       /\ UNCHANGED << rep, runflag, fin, flag, next, res, startsOK, segments, 
@@ -418,24 +426,24 @@ W8 == /\ pc["w"] = "W8"
                        ELSE /\ pc' = [pc EXCEPT !["w"] = "W_clear"]
             ELSE /\ pc' = [pc EXCEPT !["w"] = "W9a"]
       /\ UNCHANGED << rs, rep, runflag, fin, flag, next, res, startsOK, 
-                      segments, lateStop, staleStart, wrote, ctimedout, 
-                      wtimedout, i, ok >>
+                      segments, lateStop, staleStart, wrote, afterStop, 
+                      ctimedout, wtimedout, i, ok >>
 
 W9a == /\ pc["w"] = "W9a"
        /\ rep' = "ENDED"
        /\ last' = [t |-> "w", k |-> "W", v |-> "rep", x |-> "ENDED"]
        /\ pc' = [pc EXCEPT !["w"] = "W9b"]
        /\ UNCHANGED << rs, runflag, fin, flag, next, res, startsOK, segments, 
-                       lateStop, staleStart, wrote, ctimedout, wtimedout, i, 
-                       ok >>
+                       lateStop, staleStart, wrote, afterStop, ctimedout, 
+                       wtimedout, i, ok >>
 
 W9b == /\ pc["w"] = "W9b"
        /\ rs' = "ENDED"
        /\ last' = [t |-> "w", k |-> "W", v |-> "rs", x |-> "ENDED"]
        /\ pc' = [pc EXCEPT !["w"] = "W9c"]
        /\ UNCHANGED << rep, runflag, fin, flag, next, res, startsOK, segments, 
-                       lateStop, staleStart, wrote, ctimedout, wtimedout, i, 
-                       ok >>
+                       lateStop, staleStart, wrote, afterStop, ctimedout, 
+                       wtimedout, i, ok >>
 
 W9c == /\ pc["w"] = "W9c"
        /\ fin' = TRUE
@@ -444,16 +452,16 @@ W9c == /\ pc["w"] = "W9c"
              THEN /\ pc' = [pc EXCEPT !["w"] = "W_loop"]
              ELSE /\ pc' = [pc EXCEPT !["w"] = "W_clear"]
        /\ UNCHANGED << rs, rep, runflag, flag, next, res, startsOK, segments, 
-                       lateStop, staleStart, wrote, ctimedout, wtimedout, i, 
-                       ok >>
+                       lateStop, staleStart, wrote, afterStop, ctimedout, 
+                       wtimedout, i, ok >>
 
 W_clear == /\ pc["w"] = "W_clear"
            /\ flag' = FALSE
            /\ last' = [t |-> "w", k |-> "ev", v |-> "clear", x |-> "-"]
            /\ pc' = [pc EXCEPT !["w"] = "W_loop"]
            /\ UNCHANGED << rs, rep, runflag, fin, next, res, startsOK, 
-                           segments, lateStop, staleStart, wrote, ctimedout, 
-                           wtimedout, i, ok >>
+                           segments, lateStop, staleStart, wrote, afterStop, 
+                           ctimedout, wtimedout, i, ok >>
 
 W_loop == /\ pc["w"] = "W_loop"
           /\ last' = [t |-> "w", k |-> "R", v |-> "fin", x |-> IF fin THEN "True" ELSE "False"]
@@ -461,15 +469,15 @@ W_loop == /\ pc["w"] = "W_loop"
                 THEN /\ pc' = [pc EXCEPT !["w"] = "Done"]
                 ELSE /\ pc' = [pc EXCEPT !["w"] = "W_wait"]
           /\ UNCHANGED << rs, rep, runflag, fin, flag, next, res, startsOK, 
-                          segments, lateStop, staleStart, wrote, ctimedout, 
-                          wtimedout, i, ok >>
+                          segments, lateStop, staleStart, wrote, afterStop, 
+                          ctimedout, wtimedout, i, ok >>
 
 W_wait == /\ pc["w"] = "W_wait"
           /\ last' = [t |-> "w", k |-> "ev", v |-> "wait", x |-> "-"]
           /\ pc' = [pc EXCEPT !["w"] = "W_woke"]
           /\ UNCHANGED << rs, rep, runflag, fin, flag, next, res, startsOK, 
-                          segments, lateStop, staleStart, wrote, ctimedout, 
-                          wtimedout, i, ok >>
+                          segments, lateStop, staleStart, wrote, afterStop, 
+                          ctimedout, wtimedout, i, ok >>
 
 worker == W_woke \/ W_clear0 \/ W2 \/ W3 \/ W5 \/ R0 \/ R1a \/ R1b
              \/ R_body \/ H1a \/ H1b \/ H3 \/ H4f \/ H4s \/ R_fault
@@ -484,8 +492,8 @@ C_next == /\ pc["c"] = "C_next"
                 THEN /\ pc' = [pc EXCEPT !["c"] = "S1a"]
                 ELSE /\ pc' = [pc EXCEPT !["c"] = "P1a"]
           /\ UNCHANGED << rs, rep, runflag, fin, flag, next, res, startsOK, 
-                          segments, lateStop, staleStart, ctimedout, wtimedout, 
-                          i >>
+                          segments, lateStop, staleStart, afterStop, ctimedout, 
+                          wtimedout, i >>
 
 S1a == /\ pc["c"] = "S1a"
        /\ last' = [t |-> "c", k |-> "R", v |-> "rs", x |-> rs]
@@ -495,8 +503,8 @@ S1a == /\ pc["c"] = "S1a"
              ELSE /\ pc' = [pc EXCEPT !["c"] = "S1b"]
                   /\ ok' = ok
        /\ UNCHANGED << rs, rep, runflag, fin, flag, next, res, startsOK, 
-                       segments, lateStop, staleStart, wrote, ctimedout, 
-                       wtimedout, i >>
+                       segments, lateStop, staleStart, wrote, afterStop, 
+                       ctimedout, wtimedout, i >>
 
 S1b == /\ pc["c"] = "S1b"
        /\ last' = [t |-> "c", k |-> "R", v |-> "rs", x |-> rs]
@@ -506,8 +514,8 @@ S1b == /\ pc["c"] = "S1b"
              ELSE /\ pc' = [pc EXCEPT !["c"] = "S2"]
                   /\ ok' = ok
        /\ UNCHANGED << rs, rep, runflag, fin, flag, next, res, startsOK, 
-                       segments, lateStop, staleStart, wrote, ctimedout, 
-                       wtimedout, i >>
+                       segments, lateStop, staleStart, wrote, afterStop, 
+                       ctimedout, wtimedout, i >>
 
 S2 == /\ pc["c"] = "S2"
       /\ last' = [t |-> "c", k |-> "R", v |-> "rs", x |-> rs]
@@ -519,8 +527,8 @@ S2 == /\ pc["c"] = "S2"
                        ELSE /\ pc' = [pc EXCEPT !["c"] = "S3a"]
                  /\ ok' = ok
       /\ UNCHANGED << rs, rep, runflag, fin, flag, next, res, startsOK, 
-                      segments, lateStop, staleStart, wrote, ctimedout, 
-                      wtimedout, i >>
+                      segments, lateStop, staleStart, wrote, afterStop, 
+                      ctimedout, wtimedout, i >>
 
 S2x == /\ pc["c"] = "S2x"
        /\ last' = [t |-> "c", k |-> "R", v |-> "rs", x |-> rs]
@@ -530,8 +538,8 @@ S2x == /\ pc["c"] = "S2x"
              ELSE /\ pc' = [pc EXCEPT !["c"] = "S3a"]
                   /\ ok' = ok
        /\ UNCHANGED << rs, rep, runflag, fin, flag, next, res, startsOK, 
-                       segments, lateStop, staleStart, wrote, ctimedout, 
-                       wtimedout, i >>
+                       segments, lateStop, staleStart, wrote, afterStop, 
+                       ctimedout, wtimedout, i >>
 
 S3a == /\ pc["c"] = "S3a"
        /\ last' = [t |-> "c", k |-> "R", v |-> "rep", x |-> rep]
@@ -539,8 +547,8 @@ S3a == /\ pc["c"] = "S3a"
              THEN /\ pc' = [pc EXCEPT !["c"] = "S5"]
              ELSE /\ pc' = [pc EXCEPT !["c"] = "S3b"]
        /\ UNCHANGED << rs, rep, runflag, fin, flag, next, res, startsOK, 
-                       segments, lateStop, staleStart, wrote, ctimedout, 
-                       wtimedout, i, ok >>
+                       segments, lateStop, staleStart, wrote, afterStop, 
+                       ctimedout, wtimedout, i, ok >>
 
 S3b == /\ pc["c"] = "S3b"
        /\ last' = [t |-> "c", k |-> "R", v |-> "rep", x |-> rep]
@@ -550,8 +558,8 @@ S3b == /\ pc["c"] = "S3b"
              ELSE /\ pc' = [pc EXCEPT !["c"] = "S5"]
                   /\ ok' = ok
        /\ UNCHANGED << rs, rep, runflag, fin, flag, next, res, startsOK, 
-                       segments, lateStop, staleStart, wrote, ctimedout, 
-                       wtimedout, i >>
+                       segments, lateStop, staleStart, wrote, afterStop, 
+                       ctimedout, wtimedout, i >>
 
 S5 == /\ pc["c"] = "S5"
       /\ staleStart' = (staleStart \/ PostRun(pc["w"]) \/ (InRunLoop(pc["w"]) /\ rs = "STOPPING"))
@@ -560,7 +568,7 @@ S5 == /\ pc["c"] = "S5"
       /\ last' = [t |-> "c", k |-> "W", v |-> "rs", x |-> "STARTING"]
       /\ pc' = [pc EXCEPT !["c"] = "S6a"]
       /\ UNCHANGED << rep, runflag, fin, flag, next, res, startsOK, segments, 
-                      lateStop, ctimedout, wtimedout, i, ok >>
+                      lateStop, afterStop, ctimedout, wtimedout, i, ok >>
 
 S6a == /\ pc["c"] = "S6a"
        /\ last' = [t |-> "c", k |-> "R", v |-> "rep", x |-> rep]
@@ -568,16 +576,16 @@ S6a == /\ pc["c"] = "S6a"
              THEN /\ pc' = [pc EXCEPT !["c"] = "S8"]
              ELSE /\ pc' = [pc EXCEPT !["c"] = "S6b"]
        /\ UNCHANGED << rs, rep, runflag, fin, flag, next, res, startsOK, 
-                       segments, lateStop, staleStart, wrote, ctimedout, 
-                       wtimedout, i, ok >>
+                       segments, lateStop, staleStart, wrote, afterStop, 
+                       ctimedout, wtimedout, i, ok >>
 
 S6b == /\ pc["c"] = "S6b"
        /\ rep' = "STARTED"
        /\ last' = [t |-> "c", k |-> "W", v |-> "rep", x |-> "STARTED"]
        /\ pc' = [pc EXCEPT !["c"] = "S8"]
        /\ UNCHANGED << rs, runflag, fin, flag, next, res, startsOK, segments, 
-                       lateStop, staleStart, wrote, ctimedout, wtimedout, i, 
-                       ok >>
+                       lateStop, staleStart, wrote, afterStop, ctimedout, 
+                       wtimedout, i, ok >>
 
 S8 == /\ pc["c"] = "S8"
       /\ flag' = TRUE
@@ -585,7 +593,7 @@ S8 == /\ pc["c"] = "S8"
       /\ last' = [t |-> "c", k |-> "ev", v |-> "set", x |-> "-"]
       /\ pc' = [pc EXCEPT !["c"] = "S9r"]
       /\ UNCHANGED << rs, rep, runflag, fin, next, res, startsOK, segments, 
-                      lateStop, staleStart, wrote, wtimedout, i, ok >>
+                      lateStop, staleStart, wrote, afterStop, wtimedout, i, ok >>
 
 S9r == /\ pc["c"] = "S9r"
        /\ last' = [t |-> "c", k |-> "R", v |-> "runflag", x |-> IF runflag THEN "True" ELSE "False"]
@@ -593,8 +601,8 @@ S9r == /\ pc["c"] = "S9r"
              THEN /\ pc' = [pc EXCEPT !["c"] = "S10"]
              ELSE /\ pc' = [pc EXCEPT !["c"] = "S9s"]
        /\ UNCHANGED << rs, rep, runflag, fin, flag, next, res, startsOK, 
-                       segments, lateStop, staleStart, wrote, ctimedout, 
-                       wtimedout, i, ok >>
+                       segments, lateStop, staleStart, wrote, afterStop, 
+                       ctimedout, wtimedout, i, ok >>
 
 S9s == /\ pc["c"] = "S9s"
        /\ \/ /\ last' = [t |-> "c", k |-> "sleep", v |-> "-", x |-> "-"]
@@ -605,7 +613,7 @@ S9s == /\ pc["c"] = "S9s"
              /\ last' = [t |-> "c", k |-> "sleep", v |-> "timeout", x |-> "-"]
        /\ pc' = [pc EXCEPT !["c"] = "S9r"]
        /\ UNCHANGED << rs, rep, runflag, fin, flag, next, res, startsOK, 
-                       segments, lateStop, staleStart, wrote, i, ok >>
+                       segments, lateStop, staleStart, wrote, afterStop, i, ok >>
 
 S10 == /\ pc["c"] = "S10"
        /\ runflag' = FALSE
@@ -613,7 +621,8 @@ S10 == /\ pc["c"] = "S10"
        /\ last' = [t |-> "c", k |-> "W", v |-> "runflag", x |-> IF FALSE THEN "True" ELSE "False"]
        /\ pc' = [pc EXCEPT !["c"] = "C_ret"]
        /\ UNCHANGED << rs, rep, fin, flag, next, res, segments, lateStop, 
-                       staleStart, wrote, ctimedout, wtimedout, i, ok >>
+                       staleStart, wrote, afterStop, ctimedout, wtimedout, i, 
+                       ok >>
 
 P1a == /\ pc["c"] = "P1a"
        /\ last' = [t |-> "c", k |-> "R", v |-> "rs", x |-> rs]
@@ -621,8 +630,8 @@ P1a == /\ pc["c"] = "P1a"
              THEN /\ pc' = [pc EXCEPT !["c"] = "P3"]
              ELSE /\ pc' = [pc EXCEPT !["c"] = "P1b"]
        /\ UNCHANGED << rs, rep, runflag, fin, flag, next, res, startsOK, 
-                       segments, lateStop, staleStart, wrote, ctimedout, 
-                       wtimedout, i, ok >>
+                       segments, lateStop, staleStart, wrote, afterStop, 
+                       ctimedout, wtimedout, i, ok >>
 
 P1b == /\ pc["c"] = "P1b"
        /\ last' = [t |-> "c", k |-> "R", v |-> "rs", x |-> rs]
@@ -632,14 +641,15 @@ P1b == /\ pc["c"] = "P1b"
              ELSE /\ pc' = [pc EXCEPT !["c"] = "P3"]
                   /\ ok' = ok
        /\ UNCHANGED << rs, rep, runflag, fin, flag, next, res, startsOK, 
-                       segments, lateStop, staleStart, wrote, ctimedout, 
-                       wtimedout, i >>
+                       segments, lateStop, staleStart, wrote, afterStop, 
+                       ctimedout, wtimedout, i >>
 
 P3 == /\ pc["c"] = "P3"
       /\ lateStop' = (lateStop \/ ~InRunLoop(pc["w"]) \/ pc["w"] = "R_end2")
       /\ rs' = "STOPPING"
       /\ wrote' = TRUE
       /\ ctimedout' = FALSE
+      /\ afterStop' = 0
       /\ last' = [t |-> "c", k |-> "W", v |-> "rs", x |-> "STOPPING"]
       /\ IF WBlocked
             THEN /\ IF "settle_late_stopping" \in Fixes
@@ -657,8 +667,8 @@ P4f == /\ pc["c"] = "P4f"
                         ELSE /\ pc' = [pc EXCEPT !["c"] = "C_ret"]
              ELSE /\ pc' = [pc EXCEPT !["c"] = "P4s"]
        /\ UNCHANGED << rs, rep, runflag, fin, flag, next, res, startsOK, 
-                       segments, lateStop, staleStart, wrote, ctimedout, 
-                       wtimedout, i, ok >>
+                       segments, lateStop, staleStart, wrote, afterStop, 
+                       ctimedout, wtimedout, i, ok >>
 
 P4s == /\ pc["c"] = "P4s"
        /\ \/ /\ last' = [t |-> "c", k |-> "sleep", v |-> "-", x |-> "-"]
@@ -678,7 +688,7 @@ P4s == /\ pc["c"] = "P4s"
                               ELSE /\ pc' = [pc EXCEPT !["c"] = "C_ret"]
                    ELSE /\ pc' = [pc EXCEPT !["c"] = "P4f"]
        /\ UNCHANGED << rs, rep, runflag, fin, flag, next, res, startsOK, 
-                       segments, lateStop, staleStart, wrote, i, ok >>
+                       segments, lateStop, staleStart, wrote, afterStop, i, ok >>
 
 P5a == /\ pc["c"] = "P5a"
        /\ last' = [t |-> "c", k |-> "R", v |-> "rs", x |-> rs]
@@ -686,8 +696,8 @@ P5a == /\ pc["c"] = "P5a"
              THEN /\ pc' = [pc EXCEPT !["c"] = "C_ret"]
              ELSE /\ pc' = [pc EXCEPT !["c"] = "P5b"]
        /\ UNCHANGED << rs, rep, runflag, fin, flag, next, res, startsOK, 
-                       segments, lateStop, staleStart, wrote, ctimedout, 
-                       wtimedout, i, ok >>
+                       segments, lateStop, staleStart, wrote, afterStop, 
+                       ctimedout, wtimedout, i, ok >>
 
 P5b == /\ pc["c"] = "P5b"
        /\ last' = [t |-> "c", k |-> "R", v |-> "rep", x |-> rep]
@@ -695,24 +705,24 @@ P5b == /\ pc["c"] = "P5b"
              THEN /\ pc' = [pc EXCEPT !["c"] = "P5c"]
              ELSE /\ pc' = [pc EXCEPT !["c"] = "P5d"]
        /\ UNCHANGED << rs, rep, runflag, fin, flag, next, res, startsOK, 
-                       segments, lateStop, staleStart, wrote, ctimedout, 
-                       wtimedout, i, ok >>
+                       segments, lateStop, staleStart, wrote, afterStop, 
+                       ctimedout, wtimedout, i, ok >>
 
 P5c == /\ pc["c"] = "P5c"
        /\ rs' = "ENDED"
        /\ last' = [t |-> "c", k |-> "W", v |-> "rs", x |-> "ENDED"]
        /\ pc' = [pc EXCEPT !["c"] = "C_ret"]
        /\ UNCHANGED << rep, runflag, fin, flag, next, res, startsOK, segments, 
-                       lateStop, staleStart, wrote, ctimedout, wtimedout, i, 
-                       ok >>
+                       lateStop, staleStart, wrote, afterStop, ctimedout, 
+                       wtimedout, i, ok >>
 
 P5d == /\ pc["c"] = "P5d"
        /\ rs' = "STOPPED"
        /\ last' = [t |-> "c", k |-> "W", v |-> "rs", x |-> "STOPPED"]
        /\ pc' = [pc EXCEPT !["c"] = "C_ret"]
        /\ UNCHANGED << rep, runflag, fin, flag, next, res, startsOK, segments, 
-                       lateStop, staleStart, wrote, ctimedout, wtimedout, i, 
-                       ok >>
+                       lateStop, staleStart, wrote, afterStop, ctimedout, 
+                       wtimedout, i, ok >>
 
 C_ret == /\ pc["c"] = "C_ret"
          /\ res' = Append(res, IF ok THEN "ok" ELSE "DSOLError")
@@ -722,7 +732,8 @@ C_ret == /\ pc["c"] = "C_ret"
                THEN /\ pc' = [pc EXCEPT !["c"] = "Done"]
                ELSE /\ pc' = [pc EXCEPT !["c"] = "C_next"]
          /\ UNCHANGED << rs, rep, runflag, fin, flag, next, startsOK, segments, 
-                         lateStop, staleStart, wrote, ctimedout, wtimedout, ok >>
+                         lateStop, staleStart, wrote, afterStop, ctimedout, 
+                         wtimedout, ok >>
 
 caller == C_next \/ S1a \/ S1b \/ S2 \/ S2x \/ S3a \/ S3b \/ S5 \/ S6a
              \/ S6b \/ S8 \/ S9r \/ S9s \/ S10 \/ P1a \/ P1b \/ P3 \/ P4f
@@ -751,6 +762,8 @@ NoLostStart == Quiescent => segments = startsOK
 EndedFinal == (Quiescent /\ rep = "ENDED") => (rs = "ENDED" /\ pc["w"] = "Done")
 ThreadGoneAfterEnd == (Quiescent /\ rs = "ENDED") => pc["w"] = "Done"
 RefusedWroteNothing == (last.k = "ret" /\ last.x = "DSOLError") => ~wrote
+(* an accepted stop() takes effect: after its STOPPING write the run thread finishes at most the event in progress *)
+StopEffective == afterStop <= 1
 
 (* the same, with the two known race families of the pinned tree set aside (they are reported as known findings) *)
 Known == lateStop \/ staleStart
@@ -758,4 +771,5 @@ NoStuckStateK == Known \/ NoStuckState
 NoLostStartK == Known \/ NoLostStart
 EndedFinalK == Known \/ EndedFinal
 ThreadGoneK == Known \/ ThreadGoneAfterEnd
+StopEffectiveK == Known \/ StopEffective
 =============================================================================
